@@ -259,6 +259,13 @@ func (g *ExprGen) Gen(t Type, depth int) Expr {
 			return &EBin{ops[r.Intn(2)], g.Gen(TBool, d), g.Gen(TBool, d)}
 		case 14:
 			ops := []string{"in", "not in"}
+			if r.Intn(3) == 0 {
+				// a hash as haystack: its values count, not its keys (needle = the key, the value, or neither)
+				k, v := g.pick([]string{"k", "abc", "b"}), g.pick([]string{"abc", "b", "z"})
+				h := &EGroup{&EHash{[]Expr{g.hashKey(k)}, []Expr{&EStr{v}}}}
+				needle := []Expr{&EStr{k}, &EStr{v}, g.Gen(TStr, 0)}[r.Intn(3)]
+				return &EBin{ops[r.Intn(2)], needle, h}
+			}
 			return &EBin{ops[r.Intn(2)], g.Gen(TStr, 0), &EArr{[]Expr{g.Gen(TStr, 0), g.Gen(TStr, 0)}}}
 		default:
 			// number vs canonical numeric string, null vs false
